@@ -130,14 +130,33 @@ func cmdCheck(args []string) {
 	setup(*repo)
 	pset := map[string]bool{*prop: true}
 	baseline := loadBaseline(*prop)
+	everSeen := loadBaseline(*prop + ".all")
+	if !*mkBaseline {
+		provenElsewhere = map[string]bool{}
+		if files, err := filepath.Glob("/verif/baseline/C[0-9][0-9].txt"); err == nil {
+			for _, f := range files {
+				for n := range loadBaseline(strings.TrimSuffix(filepath.Base(f), ".txt")) {
+					provenElsewhere[n] = true
+				}
+			}
+		}
+	}
 	known := loadKnownFindings()
+	isNewFrame := func(o *Obl) bool {
+		// an obligation that did not exist when the baseline was taken (new code) and
+		// whose failure does not depend on any abstraction: the global-region checks
+		if everSeen == nil || everSeen[o.Name] {
+			return false
+		}
+		return strings.HasPrefix(o.Kind, "store.global") || strings.HasPrefix(o.Kind, "escape.global") || strings.HasPrefix(o.Kind, "arg.global")
+	}
 	sel := func(o *Obl) bool {
 		if !hasProp(o, pset) {
 			return false
 		}
 		if *tier == "quick" && baseline != nil && !*mkBaseline {
-			// quick tier: the committed baseline obligations and the known findings
-			return baseline[o.Name] || matchKnown(known, *prop, o.Name) != nil
+			// quick tier: the committed baseline obligations, the known findings, and new global-region obligations
+			return baseline[o.Name] || matchKnown(known, *prop, o.Name) != nil || isNewFrame(o)
 		}
 		return true
 	}
@@ -249,12 +268,17 @@ func cmdCheck(args []string) {
 				}
 				fmt.Printf("VIOLATION property=%s replay=%s obligation=%s status=%s%s\n", *prop, path, o.Name, o.Status, suffix)
 			case o.Status == "sat":
-				// not in the baseline: only a reproduced counterexample counts
+				// not in the baseline: only a reproduced counterexample counts, except for
+				// global-region obligations of code that is new since the baseline
 				path := writeReplay(*prop, r, o)
-				if o.Replayed {
+				if o.Replayed || isNewFrame(o) {
 					total++
 					violations++
-					fmt.Printf("VIOLATION property=%s replay=%s obligation=%s status=sat\n", *prop, path, o.Name)
+					sfx := ""
+					if !o.Replayed {
+						sfx = " no-failing-input-found"
+					}
+					fmt.Printf("VIOLATION property=%s replay=%s obligation=%s status=sat%s\n", *prop, path, o.Name, sfx)
 				} else {
 					attempted = append(attempted, o.Name+": sat (not in baseline, not reproduced)")
 				}
